@@ -52,6 +52,9 @@ GRAPHS = {
 }
 # further graphs replayed edge by edge in the thorough tier only
 MORE_GRAPHS = {
+    "C15": [("timeout / speculative delay (5,2) (4,2) (3,2) (1,2) x 0-3 speculative executions x retries x next page",
+             _c(SpecChoices={0, 1, 2, 3}, OkKinds={"rows", "more"}, Decisions={"RETRY", "NEXT", "RETHROW"}, MaxEpoch=2, Late=False,
+                PoolConds={"missing"}, MaxBad=1, TimeChoices={502, 402, 302, 102}))],
     "C14": [("stream id 0 for every attempt / for the first attempt: which request the timeout deregisters",
              _c(Decisions={"RETRY", "NEXT", "RETHROW"}, IdChoices={"zero", "one"})),
             ("fatal error answers", _c(SpecChoices={0, 1}, FatalKinds={"SyntaxException"}, Decisions={"RETRY", "RETHROW"})),
@@ -75,7 +78,7 @@ BIG = {
                IdChoices={"zero", "one"})),
 }
 LIVENESS = _c(NHosts=2, OkKinds={"rows", "more"}, Decisions={"RETRY", "NEXT", "RETHROW"}, MaxEpoch=2, Late=False,
-              PoolConds={"missing"}, MaxBad=1)
+              PoolConds={"missing"}, MaxBad=1, TimeChoices={0, 302})
 TRACE_CONSTS = dict(NHosts=3, PoolConds={"missing", "shutdown", "busy", "failing", "unwritable", "noconn"}, MaxBad=3,
                     SpecChoices={0, 1, 2, 3}, IdemChoices={True, False}, TargetChoices={0, 1, 2, 3},
                     OkKinds={"rows", "more", "void"}, ErrKinds=ALLK, FatalKinds={"SyntaxException", "InvalidRequest"},
